@@ -51,6 +51,11 @@ var flavours = map[string]flavourDef{
 	"checkptr":   {"vh-checkptr", []string{"-gcflags=all=-d=checkptr"}, "go"},
 	"go126":      {"vh-go126", nil, "go1.26.8"},
 	"go126-race": {"vh-go126-race", []string{"-race"}, "go1.26.8"},
+	// the plain build run with GOGC=1 (a collection after almost every allocation: object pools are emptied
+	// all the time, goroutine stacks are shrunk and moved at collections) and GODEBUG=clobberfree=1 (the
+	// collector overwrites every object it frees, so memory that is still in use through a pointer the
+	// collector cannot see - a uintptr, a forged slice header - changes under its user)
+	"gcstress": {"vh-gcstress", nil, "go"},
 }
 
 func harnessDir() string { return filepath.Join(verifRoot, "harness") }
@@ -675,6 +680,9 @@ func runWorker(r *workerRun, prop, tier string, seed int64, workdir string, time
 	}
 	if fl == "asan" {
 		cmd.Env = append(cmd.Env, "ASAN_OPTIONS=detect_leaks=0:abort_on_error=0:halt_on_error=1")
+	}
+	if fl == "gcstress" {
+		cmd.Env = append(cmd.Env, "GOGC=1", "GODEBUG=clobberfree=1")
 	}
 	errPath := filepath.Join(workdir, fmt.Sprintf("%s-%d.stderr", fl, r.shard))
 	ef, _ := os.Create(errPath)
